@@ -98,15 +98,20 @@ func SupportsCertificate(acceptableCAs [][]byte, c *tls.Certificate) error {
 }
 
 type HandshakeConfig struct {
-	LocalPSKCallback              func([]byte) ([]byte, error)
-	LocalPSKIdentityHint          []byte
-	LocalCipherSuites             []CipherSuite
-	LocalSignatureSchemes         []signaturehash.Algorithm
-	LocalCertSignatureSchemes     []signaturehash.Algorithm
-	ExtendedMasterSecret          ExtendedMasterSecretType
-	LocalSRTPProtectionProfiles   []SRTPProtectionProfile
-	LocalSRTPMasterKeyIdentifier  []byte
-	ServerName                    string
+	LocalPSKCallback             func([]byte) ([]byte, error)
+	LocalPSKIdentityHint         []byte
+	LocalCipherSuites            []CipherSuite
+	LocalSignatureSchemes        []signaturehash.Algorithm
+	LocalCertSignatureSchemes    []signaturehash.Algorithm
+	ExtendedMasterSecret         ExtendedMasterSecretType
+	LocalSRTPProtectionProfiles  []SRTPProtectionProfile
+	LocalSRTPMasterKeyIdentifier []byte
+	ServerName                   string
+	// VerifyServerName is the name the server's certificate must be valid for.
+	// It differs from ServerName (the SNI value) when the configured name is an
+	// IP address literal: that is never sent as SNI but is still what the
+	// certificate is checked against.
+	VerifyServerName              string
 	SupportedProtocols            []string
 	ClientAuth                    ClientAuthType
 	LocalCertificates             []tls.Certificate
@@ -254,4 +259,14 @@ func (c *HandshakeConfig) GetClientCertificate(cri *CertificateRequestInfo) (*tl
 	}
 
 	return new(tls.Certificate), nil
+}
+
+// PeerVerificationName returns the name the server's certificate is verified
+// against: the configured name, including an IP address literal.
+func (c *HandshakeConfig) PeerVerificationName() string {
+	if c.VerifyServerName != "" {
+		return c.VerifyServerName
+	}
+
+	return c.ServerName
 }
